@@ -41,6 +41,7 @@ ASSUMPTIONS = [
     "OpenSSL version of this sandbox; OP_IGNORE_UNEXPECTED_EOF cleared on harness contexts",
 ]
 REQUIRED = [
+    "concurrent_close_cases",
     "cut_in_handshake",
     "cut_between_records",
     "cut_inside_record",
@@ -180,6 +181,85 @@ def async_session(version: str, std: bool, lib_server: bool, reader: str, k: int
         obs["marks"] = dict(peer.sent_marks)
         obs["total"] = peer.bytes_out
         obs["wire"] = bytes(obs["cp"].log)
+    return obs
+
+
+def async_concurrent_close(version: str, std: bool, lib_server: bool, reader: str, eof_when: str) -> dict:
+    """a reader task is blocked in recv()/recv_into() while another task calls aclose(); the connection then ends WITHOUT the
+    peer's close_notify (eof_when: 'during-aclose' | 'before-aclose'). The blocked reader must not see a clean end-of-stream
+    in standard-compatible mode."""
+    obs: dict[str, Any] = {"plaintext": b"", "end": None, "wrap": None}
+
+    async def main(loop):
+        backend = AsyncIOBackend()
+        a, b = memtransport.stream_pair(backend)
+        cp = CutPipe(a.incoming, None)
+        b.outgoing = cp  # type: ignore[assignment]
+        peer = tlspeer.AsyncPeer(b, tlspeer.client_context(version) if lib_server else tlspeer.server_context(version), server_side=not lib_server)
+
+        async def peer_task():
+            try:
+                await peer.handshake()
+                for m in MSGS:
+                    await peer.write(m)
+                await peer.drain()
+                # the peer never sends close_notify; it just keeps reading (and sees ours)
+                obs["peer_end"] = await peer.read_until_end()
+            except (ssl.SSLError, OSError) as exc:
+                obs["peer_exc"] = type(exc).__name__
+
+        pt = asyncio.ensure_future(peer_task())
+        ctx = tlspeer.server_context(version) if lib_server else tlspeer.client_context(version)
+        t = await AsyncTLSStreamTransport.wrap(a, ctx, server_side=lib_server, server_hostname=None if lib_server else "localhost", standard_compatible=std, handshake_timeout=5, shutdown_timeout=30)
+        obs["wrap"] = "ok"
+        got = bytearray()
+        want = sum(len(m) for m in MSGS)
+
+        async def rd():
+            try:
+                while True:
+                    if reader == "recv":
+                        d = await t.recv(4096)
+                    else:
+                        buf = bytearray(4096)
+                        n = await t.recv_into(buf)
+                        d = bytes(buf[:n])
+                    if not d:
+                        obs["end"] = "clean"
+                        return
+                    got.extend(d)
+            except BaseException as exc:  # noqa: BLE001
+                if isinstance(exc, (asyncio.CancelledError, vloop.Quiescent)):
+                    raise
+                obs["end"] = f"error:{type(exc).__name__}"
+
+        rt = asyncio.ensure_future(rd())
+        for _ in range(200):
+            if len(got) >= want:
+                break
+            await asyncio.sleep(0)
+        for _ in range(5):
+            await asyncio.sleep(0)  # the reader is now blocked waiting for more
+        if eof_when == "before-aclose":
+            cp.feed_eof()
+            await asyncio.sleep(0)
+        closer = asyncio.ensure_future(t.aclose())
+        for _ in range(6):
+            await asyncio.sleep(0)
+        if eof_when == "during-aclose":
+            cp.feed_eof()  # the connection is dropped while aclose() waits for the peer's close_notify
+        await asyncio.wait([rt, closer], timeout=100)
+        obs["reader_done"] = rt.done()
+        obs["closer_done"] = closer.done()
+        obs["plaintext"] = bytes(got)
+        for x in (rt, closer, pt):
+            x.cancel()
+        await asyncio.gather(rt, closer, pt, return_exceptions=True)
+
+    try:
+        vloop.run(main)
+    except vloop.Quiescent as exc:
+        obs["deadlock"] = str(exc)
     return obs
 
 
@@ -571,6 +651,25 @@ def run_shard(params: dict, ctx) -> None:
             ctx.violation(f"close-deadlock:{kind}", f"close ({order}) hangs: {o['deadlock']}", {**params, "order": order})
         elif std and o.get("peer_end") != "clean":
             ctx.violation(f"no-close-notify:{kind}", f"standard-compatible close ({order}): the peer's read ended '{o.get('peer_end')}' (no close_notify seen)", {**params, "order": order})
+    if kind == "async-tls":
+        for reader in ("recv", "recv_into"):
+            for eof_when in ("during-aclose", "before-aclose"):
+                o = async_concurrent_close(version, std, lib_server, reader, eof_when)
+                ctx.case(True, kind, version, std, lib_server, "concurrent-close", reader, eof_when)
+                ctx.count("concurrent_close_cases")
+                why = None
+                if o.get("deadlock"):
+                    why = f"deadlock: {o['deadlock']}"
+                elif not o.get("reader_done"):
+                    why = "the blocked reader never returned after the connection ended"
+                elif o["plaintext"] != b"".join(MSGS):
+                    why = f"reader got {o['plaintext']!r}"
+                elif std and o["end"] == "clean":
+                    why = f"standard-compatible mode: the connection ended without the peer's close_notify while aclose() was in progress ({eof_when}) and the blocked {reader}() reported a clean end-of-stream"
+                elif not std and o["end"] != "clean":
+                    why = f"non standard-compatible mode: blocked {reader}() ended with {o['end']} instead of end-of-stream"
+                if why:
+                    ctx.violation(f"concurrent-close:{'clean-eof-on-truncation' if 'clean end' in why else 'other'}:{kind}", f"[{kind} TLS{version} std={std} lib_server={lib_server}] {why}", {**params, "concurrent_close": [reader, eof_when]})
     wire = ref.get("wire") or b""
     records = tlspeer.parse_records(wire) if wire else [(0, 0, v) for v in sorted(set(ref["marks"].values()))]
     stride = 7 if kind.endswith("tls") else 41
